@@ -40,13 +40,19 @@ def run_async_case(case, watchdog_s=30.0):
 
   async def agen(p):
     n = lens[p]
+    if fault and fault['p'] != p and case.get('endless_others'):
+      # The other producers have (practically) endless sources: only a producer
+      # that notices the failure stops pulling from them.
+      n = 3000
     for i in range(n):
       if fault and fault['p'] == p and fault['at'] == i:
         rec('fail', p, i)
         raise InjectedError(f'p{p}@{i}')
-      d = delays[(p * 7 + i) % len(delays)]
+      d = delays[(p * 7 + i) % len(delays)] if i < 40 else 0
       if d:
         await asyncio.sleep(d)
+      elif i % 16 == 15:
+        await asyncio.sleep(0)
       rec('produce', p, i)
       yield (p, i)
     if fault and fault['p'] == p and fault['at'] == n:
@@ -170,4 +176,15 @@ def analyse(case, log):
     for p in range(P):
       if not any(e[0] in ('prod_return', 'prod_raise') and e[1] == p for e in log):
         out.append(('producer_no_return', p))
+    if case.get('endless_others') and any(e[0] == 'fail' for e in log):
+      # After the failure was recorded a producer may finish the put it is in and
+      # look at the queue once more; it must not keep draining its source.
+      at = max(i for i, e in enumerate(log) if e[0] == 'fail')
+      for p in range(P):
+        if p == fault['p']:
+          continue
+        late = sum(1 for e in log[at:] if e[0] == 'produce' and e[1] == p)
+        if late > case['cap'] + 50:
+          out.append(('producer_keeps_pulling_after_failure',
+                      {'producer': p, 'pulled_after_failure': late}))
   return out
